@@ -23,6 +23,7 @@ ASSUMPTIONS = [
     "the random source is secrets.randbelow (stubbed); an implementation that draws no randomness is still judged",
 ]
 OBLIGATIONS = {
+    "long_history": "operations executed in one long history (every key of a 199-element group, forward / forward / reverse)",
     "history_sequences": "operation sequences (non-initial process states) explored",
     "concurrent_first_calls": "interleavings of two concurrent first sign() calls explored",
     "draw_zero": "a nonce draw of 0 was offered (must be re-drawn)",
@@ -247,6 +248,14 @@ def run_case(kind, case):
     return CASES[kind](case)
 
 
+def long_ops(job):
+    """sign + verify under EVERY secret key of the p=211 curve (198 keys): fills and wraps any bounded per-key cache"""
+    cv = job["curve"]
+    C = smallcurve.curve(cv)
+    return [("bytes", {"curve": cv, "key": d.to_bytes(32, "big").hex(), "msg": b"long".hex(), "flag": 1, "preimage": False,
+                       "draws": [(d * 7 + 3) % C.n or 1]}) for d in range(1, C.n)]
+
+
 def seq_ops(job):
     """sign+verify with keys d and n-d (same x, opposite parity) in every order, both key encodings, two flags"""
     cv = job["curve"]
@@ -346,12 +355,17 @@ def jobs(tier, seed):
         js.append({"name": f"secp/longmsg/{sh}", "part": "real-longmsg", "shard": [sh, 4], "weight": 6})
     from vf.runner import seq_jobs
     js += seq_jobs(4, curve=list(smallcurve.TABLE[0]), weight=4)
+    from vf.runner import long_jobs
+    js += long_jobs(curve=list(smallcurve.TABLE[5]))
     for i in range(6):
         js.append({"name": f"concurrent-sign/{i}", "part": "concur", "curve": list(smallcurve.TABLE[0]), "idx": i, "weight": 6})
     return js
 
 
 def run_job(job):
+    if job["part"] == "longhist":
+        from vf.runner import run_long_job
+        return run_long_job(job, long_ops(job), run_case)
     if job["part"] == "seq":
         from vf.runner import run_seq_job
         return run_seq_job(job, seq_ops(job), run_case)
